@@ -128,6 +128,12 @@ Put(c, b, f, vbits) ==
         nb  == [i \in 1..Len(hb) |-> IF i \in BitsOfField(f) THEN vbits[i - f.o] ELSE hb[i]]
     IN BitsToBytes(nb) \o SubSeq(b, Table[c].size + 1, Len(b))
 
+(* bits that are reserved in every layout view that contains field f: outside f, and covered by no field or only by   *)
+(* fields that overlap f (the message header's bytes 8..9 under the 16 bit vendor id, which the 32 bit interface id of *)
+(* data messages also covers)                                                                                         *)
+ViewReserved(c, f) ==
+    {b \in (1..(8 * Table[c].size)) \ BitsOfField(f) :
+        \A k \in 1..Len(Table[c].fields) : b \in BitsOfField(Table[c].fields[k]) => Overlap(Table[c].fields[k], f)}
 ReservedOf(c, b) == LET hb == HdrBits(c, b) IN [i \in ReservedBits(c) |-> hb[i]]
 
 (* ---- default-constructed objects --------------------------------------------- *)
